@@ -90,7 +90,9 @@ func TestVerifC09(t *testing.T) {
 			}
 			nauth := rng.intn(3)
 			for k := 0; k < nauth; k++ {
-				c.fields = append(c.fields, [2]string{authNames[rng.intn(len(authNames))], fmt.Sprintf("Bearer secret-%d", k)})
+				// credential values of every shape: scheme + token, a bare token without a space, a tab instead of the space, empty
+				val := []string{fmt.Sprintf("Bearer secret-%d", k), fmt.Sprintf("baretoken%d", k), fmt.Sprintf("Bearer\tsecret-%d", k), "", fmt.Sprintf("Basic c2VjcmV0LSVk%d", k)}[(i+k)%5]
+				c.fields = append(c.fields, [2]string{authNames[rng.intn(len(authNames))], val})
 			}
 			c.fields = append(c.fields, [2]string{"X-Other", "keep"})
 			if c.ws && i%4 == 0 {
